@@ -1,13 +1,15 @@
 #!/bin/bash
 # Development helper: evaluate a seeded change produced by a sub-agent.
-# usage: seed_eval.sh <Cxx> [demo-file]   (worktree /tmp/wt/<Cxx>, deliverables /tmp/seed/<Cxx>)
-id=$1; wt=/tmp/wt/$id; out=/tmp/seed/$id
-demo=${2:-$(ls $out/demo.py $out/test_demo.py 2>/dev/null | head -1)}
+# usage: seed_eval.sh <Cxx> <tag>   (worktree /tmp/wt/<Cxx><tag>, deliverables /tmp/seed/<Cxx><tag>)
+prop=$1; id=$1$2; wt=/tmp/wt/$id; out=/tmp/seed/$id
+demo=$(ls $out/demo.py $out/test_demo.py 2>/dev/null | head -1)
 echo "== $id demo=$demo"
 cd $wt || exit 2
+git diff > $out/patch.check.diff
+if ! diff -q $out/patch.check.diff $out/patch.diff >/dev/null; then echo "NOTE: patch.diff differs from worktree diff; using worktree diff"; cp $out/patch.check.diff $out/patch.diff; fi
 git diff --stat | tail -1
-run_demo() { if [[ $demo == *test_demo.py ]]; then PYTHONPATH=$wt timeout 600 /venv/bin/python -m pytest -q -p no:cacheprovider $demo >/tmp/seed/$id/demo_$1.log 2>&1; else PYTHONPATH=$wt timeout 600 /venv/bin/python $demo >/tmp/seed/$id/demo_$1.log 2>&1; fi; echo "demo($1) exit=$?"; }
+run_demo() { if [[ $demo == *test_demo.py ]]; then (cd $wt; PYTHONPATH=$wt timeout 600 /venv/bin/python -m pytest -q -p no:cacheprovider $demo >$out/demo_$1.log 2>&1); else (cd $wt; PYTHONPATH=$wt timeout 600 /venv/bin/python $demo >$out/demo_$1.log 2>&1); fi; echo "demo($1) exit=$? : $(tail -1 $out/demo_$1.log | cut -c1-200)"; }
 run_demo with_change
 git stash -q && run_demo without_change; git stash pop -q
-echo "-- check on /repo with the patch applied"
-cd /repo && git apply $out/patch.diff && (cd /verif && /venv/bin/python -m opstatic.run $id --no-evidence 2>&1 | grep -v "^    path" | cut -c1-700 | tail -12); git -C /repo checkout -- . ; git -C /repo status --short | head -3
+echo "-- checks on /repo with the patch applied"
+cd /repo && git apply $out/patch.diff && (cd /verif && for p in $prop ${@:3}; do /venv/bin/python -m opstatic.run $p --no-evidence 2>&1 | grep -v "^    path" | grep -v KNOWN-FINDING | cut -c1-600 | tail -8; echo "[$p exit=${PIPESTATUS[0]}]"; done); git -C /repo checkout -- . ; git -C /repo status --short | head -3
